@@ -394,6 +394,22 @@ Proof.
   - destruct SP as [(l' & E & _)|(l' & e' & E & _)]; rewrite Ga in E; discriminate E.
 Qed.
 
+(* a parse call that reports neither stream data nor the end of the stream leaves nothing owed beyond its pending
+   output, as long as the client sends nothing more *)
+Lemma sparse_quiet p new dest p' s : pinv p -> bytes_ok new -> len new <= sinput_space p ->
+  (dest <> None -> stream_buffer p = []) -> dest <> Some 0 ->
+  sparse maxc p new dest = StOk p' s -> s_end s = false -> s_stream s = 0 ->
+  forall o, R maxc (set_out (abs p') o) [] = o.
+Proof.
+  intros [HRI Hinv] Hb Hl Hd Hd0 E Hend Hstr.
+  assert (Hleg : legal (abs p) new dest) by (split; [exact Hb|split; [exact Hl|exact Hd]]).
+  destruct (sparse_refines maxc p new dest HRI) as [Ga _]. rewrite E in Ga. cbn [absres] in Ga.
+  apply (aparse_quiet maxc (abs p) new dest (abs p') s Hinv Hleg Hd0 Ga Hend Hstr).
+Qed.
+
+Lemma R_set_out_compress a o u : R maxc (set_out (acompress a) o) u = R maxc (set_out a o) u.
+Proof. reflexivity. Qed.
+
 (* ---- Request::poll_output on the abstract state: only the pending output moves ---- *)
 Lemma poll_output_abs fuel r w p r' w' : poll_output fuel r w = (p, r', w') -> pinv (rsp r) ->
   (length (wscript w) + 1 < fuel)%nat ->
@@ -531,7 +547,9 @@ Definition il_case (dest : option N) (dl : bytes) (r : rstate) (p : Conn.pres (N
          (remaining w' = [] \/ sinput_space (rsp r') = 0)) \/
       (dl = [] /\ (k = EK_WriteZero \/ k = EK_Transport))
   | PWake => dl = [] /\ stream_buffer (rsp r') = stream_buffer (rsp r)
-  | PBlock => dl = [] /\ output_buffer (rsp r') = [] /\ stream_buffer (rsp r') = stream_buffer (rsp r) /\ gated w'
+  | PBlock => dl = [] /\ output_buffer (rsp r') = [] /\ stream_buffer (rsp r') = stream_buffer (rsp r) /\ gated w' /\
+              (* nothing is owed for the bytes received so far *)
+              (dest <> Some 0 -> R maxc (abs (rsp r')) [] = [])
   end.
 
 Theorem input_loop_reads : forall fuel dest new r w p r' w',
@@ -545,7 +563,7 @@ Proof.
   induction fuel as [|f IH]; intros dest new r w p r' w' Hinv Hrem Hnew Hfit Hd Hf E; [lia|].
   cbn [input_loop] in E.
   pose proof (sparse_step (rsp r) new dest Hinv Hnew Hfit Hd) as SS.
-  destruct (sparse maxc (rsp r) new dest) as [p1 s|p1 e s|n]; [| |contradiction].
+  destruct (sparse maxc (rsp r) new dest) as [p1 s|p1 e s|n] eqn:ESP; [| |contradiction].
   2:{ (* Err(e)? *)
       injection E as <- <- <-. destruct SS as (SO & He & Hk). exists (s_dest s). split; [|split].
       - constructor; cbn [rsp].
@@ -668,7 +686,9 @@ Proof.
       * cbn [il_case]. split; [reflexivity|exact Hsb3].
     + destruct T4 as [-> Tg]. injection E as <- <- <-. exists []. split; [|split; [|apply Hwr3]].
       * apply PRE; reflexivity.
-      * cbn [il_case]. split; [reflexivity|]. split; [exact P12|]. split; [exact Hsb3|exact Tg].
+      * cbn [il_case]. split; [reflexivity|]. split; [exact P12|]. split; [exact Hsb3|]. split; [exact Tg|].
+        intros Hd0. rewrite P5, P12, CA, R_set_out_compress.
+        apply (sparse_quiet (rsp r) new dest p1 s Hinv Hnew Hfit Hd Hd0 ESP Eend Hz).
   - injection E as <- <- <-. exists []. split; [|split; [|apply Hwr3]].
     + apply PRE; reflexivity.
     + cbn [il_case]. right. right. split; [reflexivity|exact P12].
@@ -736,7 +756,8 @@ Definition pi_case (dest : option N) (dl : bytes) (r : rstate) (p : Conn.pres (N
          (remaining w' = [] \/ sinput_space (rsp r') = 0)) \/
       (dl = [] /\ (k = EK_WriteZero \/ k = EK_Transport))
   | PWake => dl = [] /\ stream_buffer (rsp r) = [] /\ stream_buffer (rsp r') = []
-  | PBlock => dl = [] /\ output_buffer (rsp r') = [] /\ stream_buffer (rsp r) = [] /\ stream_buffer (rsp r') = [] /\ gated w'
+  | PBlock => dl = [] /\ output_buffer (rsp r') = [] /\ stream_buffer (rsp r) = [] /\ stream_buffer (rsp r') = [] /\ gated w' /\
+              R maxc (abs (rsp r')) [] = []
   end.
 
 Lemma pi_case_transfer dest dl r1 r p r' w' : stream_buffer (rsp r1) = stream_buffer (rsp r) ->
@@ -781,7 +802,8 @@ Proof.
           -- exact C3.
         * exact C.
         * destruct C as (C1 & C2). split; [exact C1|]. split; [reflexivity|exact C2].
-        * destruct C as (C1 & C2 & C3 & C4). split; [exact C1|]. split; [exact C2|]. split; [reflexivity|]. split; [exact C3|exact C4].
+        * destruct C as (C1 & C2 & C3 & C4 & C5). split; [exact C1|]. split; [exact C2|]. split; [reflexivity|]. split; [exact C3|].
+          split; [exact C4|]. apply C5. intros ->. unfold poll_parses in Hpp. discriminate Hpp.
       + rewrite W, Q4. f_equal. f_equal. apply is_final_stream_eq; [apply (ac_req _ _ _ _ _ _ A1)|apply (ac_stream _ _ _ _ _ _ A1)].
     - injection E1 as <- <- <-. exists []. split; [exact A1|]. split; [|apply NOINL].
       cbn [pi_case]. right. right. split; [reflexivity|exact Q5].
@@ -835,7 +857,8 @@ Definition ai_post (dest : option N) (r : rstate) (w : world) (x : res ((N * byt
       (* the state of the Request at the moment the task stopped *)
       exists r', acct [] r w [] r' w' /\ rwriteable r' = rwriteable r /\
                  stream_buffer (rsp r') = stream_buffer (rsp r) /\ (o = ODeadlock \/ o = OFuel) /\
-                 (o = ODeadlock -> output_buffer (rsp r') = [] /\ stream_buffer (rsp r') = [] /\ gated w')
+                 (o = ODeadlock -> output_buffer (rsp r') = [] /\ stream_buffer (rsp r') = [] /\ gated w' /\
+                                   R maxc (abs (rsp r')) [] = [])
   end.
 
 Theorem await_input_reads : forall fuel dest r w, pinv (rsp r) -> bytes_ok (remaining w) ->
@@ -868,12 +891,12 @@ Proof.
   destruct p as [x| |].
   - cbn [ai_post]. exists dl. split; [exact A|]. split; [exact C|exact W].
   - unfold on_wake. cbn [andb]. destruct C as (C1 & C2 & C3). apply RETRY; try reflexivity; assumption.
-  - destruct C as (C1 & C2 & C3 & C4 & C5). unfold on_block.
+  - destruct C as (C1 & C2 & C3 & C4 & C5 & C6). unfold on_block.
     destruct (negb (stop_at w1 =? 0) && negb (stopped w1)).
     + apply RETRY; try reflexivity; assumption.
     + cbn [ai_post]. exists r1. subst dl. split; [exact A|].
       split; [rewrite W; cbn [is_inl]; rewrite andb_false_r, orb_false_r; reflexivity|].
-      split; [rewrite C3, C4; reflexivity|]. split; [left; reflexivity|]. intros _. split; [exact C2|]. split; assumption.
+      split; [rewrite C3, C4; reflexivity|]. split; [left; reflexivity|]. intros _. split; [exact C2|]. split; [exact C4|]. split; assumption.
 Qed.
 
 (* with the fuel the model supplies the loop bound is not reached *)
@@ -1162,13 +1185,14 @@ Corollary poll_input_block fuel dest r w r' w' :
   pinv (rsp r) -> bytes_ok (remaining w) -> (length (wscript w) + length (remaining w) + 2 <= fuel)%nat ->
   poll_input maxc fuel dest r w = (PBlock, r', w') ->
   output_buffer (rsp r') = [] /\ stream_buffer (rsp r') = [] /\ gated w' /\
+  R maxc (abs (rsp r')) [] = [] /\
   K (abs (rsp r)) (remaining w) = K (abs (rsp r')) (remaining w') /\
   exists flushed, wlog w' = wlog w ++ flushed /\ a_out (abs (rsp r')) = [] /\
                   R maxc (abs (rsp r)) (remaining w) = flushed ++ R maxc (abs (rsp r')) (remaining w').
 Proof.
   intros Hinv Hrem Hf E. destruct (poll_input_reads _ _ _ _ _ _ _ Hinv Hrem Hf E) as (dl & A & C & _).
-  cbn [pi_case] in C. destruct C as (-> & C1 & C2 & C3 & C4).
-  split; [exact C1|]. split; [exact C3|]. split; [exact C4|]. split; [apply (ac_K _ _ _ _ _ _ A)|].
+  cbn [pi_case] in C. destruct C as (-> & C1 & C2 & C3 & C4 & C5).
+  split; [exact C1|]. split; [exact C3|]. split; [exact C4|]. split; [exact C5|]. split; [apply (ac_K _ _ _ _ _ _ A)|].
   destruct (ac_R _ _ _ _ _ _ A) as (fl & L & RR). exists fl. split; [exact L|]. split; [exact C1|exact RR].
 Qed.
 
@@ -1177,14 +1201,15 @@ Corollary await_input_deadlock fuel dest r w w' :
   pinv (rsp r) -> bytes_ok (remaining w) -> await_input maxc fuel dest r w = Halt ODeadlock w' ->
   gated w' /\
   exists r' flushed, output_buffer (rsp r') = [] /\ stream_buffer (rsp r') = [] /\
+     R maxc (abs (rsp r')) [] = [] /\
      wlog w' = wlog w ++ flushed /\
      R maxc (abs (rsp r)) (remaining w) = flushed ++ R maxc (abs (rsp r')) (remaining w') /\
      K (abs (rsp r)) (remaining w) = K (abs (rsp r')) (remaining w').
 Proof.
   intros Hinv Hrem E. pose proof (await_input_reads fuel dest r w Hinv Hrem) as H. rewrite E in H.
-  cbn [ai_post] in H. destruct H as (r' & A & _ & _ & _ & D). destruct (D eq_refl) as (D1 & D2 & D3).
+  cbn [ai_post] in H. destruct H as (r' & A & _ & _ & _ & D). destruct (D eq_refl) as (D1 & D2 & D3 & D4).
   split; [exact D3|]. destruct (ac_R _ _ _ _ _ _ A) as (fl & L & RR). exists r', fl.
-  split; [exact D1|]. split; [exact D2|]. split; [exact L|]. split; [exact RR|apply (ac_K _ _ _ _ _ _ A)].
+  split; [exact D1|]. split; [exact D2|]. split; [exact D4|]. split; [exact L|]. split; [exact RR|apply (ac_K _ _ _ _ _ _ A)].
 Qed.
 
 (* ------------------------------------------------------------------------------------------ *)
@@ -2156,6 +2181,8 @@ Proof. vm_compute. repeat split; reflexivity. Qed.
 Print Assumptions t_poll_read_rem.
 Print Assumptions await_read_rem.
 Print Assumptions sparse_step.
+Print Assumptions aparse_quiet.
+Print Assumptions sparse_quiet.
 Print Assumptions input_loop_reads.
 Print Assumptions poll_input_reads.
 Print Assumptions poll_input_zero.
